@@ -3,6 +3,7 @@ CONSTANTS
   MaxWorkers = 8
   Runtimes = {"threaded", "tokio"}
   MaxReq = 8
+  Kinds = {"close", "keep", "ws"}
   Dev = {}
 INIT TInit
 NEXT TNext
